@@ -3,7 +3,7 @@ AST of /repo/jsonargparse (no import of the model): every `merge_config(from, to
 the statement order of `merge_config`, the three loops of `_load_env_vars`, the condition under which the
 environment is read, how the matches of a default_config_files pattern are ordered and iterated, what
 `apply_appends` passes as the previous value, the assignment of `Namespace.update`, the naming of `get_env_var`,
-the append/NestedArg branches of `adapt_typehints`.  `Props/C04.lean` pins the table (`C04_transcription_pin`)."""
+the append/NestedArg branches of `adapt_typehints`, how each parse method calls `_parse_defaults_and_environ`.  `Props/C04.lean` pins the table (`C04_transcription_pin`)."""
 import ast
 import os
 
@@ -84,6 +84,20 @@ def generate(problems):
         merge_calls.append("apply_config: merge_config(%s)" % ", ".join(ast.unparse(a) for a in c.args))
     apply_config_tail = [s for s in _flat_stmts(apply_config.body) if "cfg_merged" in s or "cfg[dest]" in s or "cfg.get(dest)" in s]
 
+    # 1b. how every parse method obtains its base: `_parse_defaults_and_environ(...)` and the condition it stands under
+    base_calls = []
+    for fname in ("parse_args", "parse_object", "parse_env", "parse_string"):
+        f = method(fname)
+        if f is None:
+            return
+        for c in _calls(f, "_parse_defaults_and_environ"):
+            text = "%s: _parse_defaults_and_environ(%s)" % (fname, ", ".join(
+                [ast.unparse(a) for a in c.args] + ["%s=%s" % (k.arg, ast.unparse(k.value)) for k in c.keywords]))
+            for node in ast.walk(f):
+                if isinstance(node, ast.If) and any(c is x for st in node.body for x in ast.walk(st)):
+                    text += " if " + ast.unparse(node.test)
+            base_calls.append(text)
+
     # 2. merge_config body
     mc = method("merge_config")
     if mc is None:
@@ -150,7 +164,7 @@ def generate(problems):
 
     body = "namespace Jap.Gen.SourcesOrder\n"
     for name, val in (
-        ("mergeCalls", merge_calls), ("applyConfigTail", apply_config_tail), ("mergeConfigBody", merge_body),
+        ("mergeCalls", merge_calls), ("baseCalls", base_calls), ("applyConfigTail", apply_config_tail), ("mergeConfigBody", merge_body),
         ("defaultsAndEnvironBody", pde_body), ("envLoops", env_loops), ("envAssign", env_assign),
         ("globOrder", glob_order), ("defaultConfigLoop", dcf_loop), ("applyAppendsBody", appends_body),
         ("typeHintCall", call_tail), ("prevValSource", prev_val_src), ("adaptFacts", adapt_facts),
